@@ -215,6 +215,43 @@ def drop_case(part, case_id):
     part["nev"] = len(part["events"])
 
 
+def sensitivity(ctx, part):
+    """Corrupt one recorded field of an accepted trace and demand that TLC
+    rejects it (the acceptor has teeth).  Returns [(what, line, rejected_at)]."""
+    rs = [r for r in part["results"] if not r["failed"] and len(r["writes"]) >= 2 and r["ev_to"] - r["ev_from"] < 400]
+    if not rs:
+        return []
+    r = ctx.rng.choice(rs)
+    lines = part["events"][r["ev_from"] - 1:r["ev_to"]]
+    evs = [json.loads(l) for l in lines]
+    idx = lambda pred: [i for i, e in enumerate(evs) if pred(e)]
+    idat = idx(lambda e: e["e"] == "chunk" and e["v"][:4] == [73, 68, 65, 84])
+    zb = idx(lambda e: e["e"] == "zb")
+    menu = [
+        ("CRC flag of an IDAT chunk cleared", ctx.rng.choice(idat), lambda e: e.update(ok=False)),
+        ("Adler flag cleared", idx(lambda e: e["e"] == "zend")[0], lambda e: e.update(ok=False)),
+        ("high NLEN byte of the first block + 1", zb[6], lambda e: e.update(v=[(e["v"][0] + 1) % 256])),
+        ("BFINAL set on the first (non-last) block", zb[2], lambda e: e.update(v=[e["v"][0] | 1])),
+        ("a filter byte reported non-zero", idx(lambda e: e["e"] == "zdata" and e["v"][1] > 0)[-1], lambda e: e["v"].__setitem__(2, 1)),
+        ("a stored run one byte longer", idx(lambda e: e["e"] == "zdata")[0], lambda e: e["v"].__setitem__(0, e["v"][0] + 1)),
+        ("chunk length >= 2^31", idat[-1], lambda e: e["v"].__setitem__(4, e["v"][4] + 32768)),
+        ("IHDR interlace byte 1", idx(lambda e: e["e"] == "ihdr")[0], lambda e: e["v"].__setitem__(12, 1)),
+        ("one trailing byte after IEND", idx(lambda e: e["e"] == "eof")[0], lambda e: e.update(v=[1])),
+        ("a Write call one byte shorter", idx(lambda e: e["e"] == "write")[0], lambda e: e["v"].__setitem__(1, e["v"][1] - 1)),
+        ("decoded pixels differ", idx(lambda e: e["e"] == "pix")[0], lambda e: e.update(ok=False)),
+    ]
+    out = []
+    for what, i, f in ctx.rng.sample(menu, 3):
+        mut = [json.loads(l) for l in lines]
+        f(mut[i])
+        p2 = {"events": [json.dumps(e, separators=(",", ":")) for e in mut], "results": []}
+        validate(ctx, p2, "corrupted copy (%s)" % what)
+        if p2["rejected"] is None:
+            raise ToolingError("PngStored accepted a corrupted trace (%s at event %d)" % (what, i + 1))
+        out.append({"corruption": what, "event": i + 1, "rejected_at_event": p2["rejected"]})
+    return out
+
+
 def describe(e, r):
     return "Encode(w=%d, h=%d, stride=rowbytes+%d, depth=%d, colorType=%d, fill=%s seed=%d%s%s): %d Write calls %s, err=%r" % (
         e["w"], e["h"], e["stride_extra"], e["depth"], e["ct"], e["fill"], e["seed"],
@@ -265,7 +302,7 @@ def run(ctx):
                        timeout=3000, coverage=True, label="grammar generator (coverage)")
     else:
         fg = bg.submit(ctx.tlc_ok, "PngStored", cfg="gen.cfg", workers=4,
-                       data={"gen.cfg": gen_cfg([0, 6, 13], [70, 82], 84), "dummy.ndjson": dummy},
+                       data={"gen.cfg": gen_cfg([0, 13], [70, 82], 84), "dummy.ndjson": dummy},
                        timeout=1500, label="grammar generator")
     fa = bg.submit(ctx.tlc_ok, "UncomPngBuf", cfg="abs.cfg", workers=2,
                    data={"abs.cfg": buf_cfg(96, "grid", range(1, ctx.tier_pick(41, 81)), range(1, ctx.tier_pick(11, 17)), 0, 0, False)},
@@ -314,6 +351,9 @@ def run(ctx):
     with concurrent.futures.ThreadPoolExecutor(max_workers=ctx.tier_pick(4, 6)) as ex:
         outs = list(ex.map(lambda ip: run_part(ctx, binp, ip[0], ip[1]), [(i, p) for i, p in enumerate(parts) if p]))
 
+    sens = sensitivity(ctx, outs[0]) if outs and outs[0]["rejected"] is None else []
+    if sens:
+        ctx.log("corrupted copies of an accepted trace rejected by TLC: " + "; ".join("%s -> rejected at event %d" % (x["corruption"], x["rejected_at_event"]) for x in sens))
     g = fg.result()
     a = fa.result()
     bg.shutdown()
@@ -399,6 +439,7 @@ def run(ctx):
         "encode_calls": nenc, "encodes_with_write_failure": failing, "encodes_on_reused_encoder": reuse, "encodes_right_after_failed_call": after_error,
         "events_validated": sum(p["nev"] for p in outs),
         "model_drift": {"checked": drift_checked, "differing": drift},
+        "corrupted_traces_rejected": sens,
         "exhaustive": False,
     }, assumptions=[
         "widths and heights 1..0xFFFFFF (the package returns 'unsupported image size' above that and writes nothing) and inflated size < 2^30",
